@@ -9,9 +9,9 @@ PROPS = ['Props/C03.lean']
 
 
 def keyfn(case, res, m):
-    # finding key = monitor rule + scenario class (the operator kinds involved, sorted)
-    kinds = ','.join(sorted({op[0] for op in case['ops']}))[:80]
-    return f"{m['rule']}:{kinds}"
+    # finding key = monitor rule + scenario class (complete or partial consumption); the replay
+    # written per key is the smallest failing case of that class
+    return f"{m['rule']}:{'partial' if m['detail'].startswith('take') else 'full'}"
 
 
 def run(chk):
